@@ -37,9 +37,37 @@ pub fn insert_byte(doc: &[u8], at: usize, b: u8) -> Vec<u8> {
     d
 }
 
+/// Ill-formed UTF-8: the forms a byte stream can carry and a `&str` cannot - stray and surplus
+/// continuation bytes, truncated sequences, overlong forms, surrogates, code points beyond
+/// U+10FFFF, the obsolete five- and six-byte forms, and the bytes that never occur.
+pub const BAD_UTF8: &[&[u8]] = &[
+    b"\x80",
+    b"\xbf\xbf",
+    b"\xc3",
+    b"\xe2\x82",
+    b"\xf0\x9f\x98",
+    b"\xc3\xa9\x80\x80\x80",
+    b"\xc0\x80",
+    b"\xc1\xbf",
+    b"\xe0\x80\x80",
+    b"\xf0\x80\x80\x80",
+    b"\xed\xa0\x80",
+    b"\xed\xbf\xbf",
+    b"\xf4\x90\x80\x80",
+    b"\xf7\xbf\xbf\xbf",
+    b"\xf8\x88\x80\x80\x80",
+    b"\xfb\xbf\xbf\xbf\xbf",
+    b"\xfc\x84\x80\x80\x80\x80",
+    b"\xfd\xbf\xbf\xbf\xbf\xbf",
+    b"\xfe\x80\x80\x80\x80\x80\x80",
+    b"\xff\xbf\xbf\xbf\xbf\xbf\xbf\xbf",
+    b"\xfe",
+    b"\xff\xff",
+];
+
 /// Names of the operators `random_op` can draw (for fired-fault accounting).
 pub const OPS: &[&str] = &[
-    "bitflip", "insert", "delete", "duplicate", "replace", "token-splice", "chunk-dup", "chunk-swap", "chunk-drop", "extra-cells", "drop-closer", "garbage-tail",
+    "bitflip", "insert", "delete", "duplicate", "replace", "token-splice", "chunk-dup", "chunk-swap", "chunk-drop", "extra-cells", "drop-closer", "garbage-tail", "bad-utf8",
 ];
 
 /// Applies one random corruption; returns the operator name.
@@ -49,11 +77,17 @@ pub fn random_op(rng: &mut Rng, doc: &mut Vec<u8>, tokens: &[(usize, usize)], do
         return "insert";
     }
     let n = doc.len();
-    match rng.below(12) {
+    match rng.below(13) {
         0 => {
             let i = rng.usize(n);
             doc[i] ^= 1 << rng.below(8);
             "bitflip"
+        }
+        12 => {
+            let i = rng.usize(n + 1);
+            let seq = *rng.pick(BAD_UTF8);
+            doc.splice(i..i, seq.iter().cloned());
+            "bad-utf8"
         }
         1 => {
             let i = rng.usize(n + 1);
